@@ -20,7 +20,7 @@ func (fr *Frame) callName(c *ssa.CallCommon, callee *ssa.Function) string {
 		if n, ok := t.(*types.Named); ok {
 			pk := ""
 			if n.Obj().Pkg() != nil {
-				pk = n.Obj().Pkg().Name() + "."
+				pk = keyPkgName(n.Obj().Pkg()) + "."
 			}
 			return pk + n.Obj().Name() + "." + c.Method.Name()
 		}
@@ -156,10 +156,15 @@ func (fr *Frame) doCallWith(c *ssa.CallCommon, instr ssa.Instruction, fnVal Val,
 					hn += "[" + h.Op + "]"
 				}
 				vc.oblige("protocol", fmt.Sprintf("%s/call/%s/assert", vc.RootKey, hn), h.Tags, pc, g, pos, h.Text)
-				// vacuity guard: the asserted call site must be reachable under the facts assumed so far
-				cv := vc.oblige("cover", fmt.Sprintf("%s/cover/call/%s", vc.RootKey, hn), h.Tags, pc, True, pos, "the asserted call site is reachable (not a vacuous protocol obligation)")
-				cv.Cover = true
-				cv.SiteCover = true
+				// vacuity guard: an asserted call site in the root function's own body must be reachable under the
+				// facts assumed so far (sites inside inlined callees may be legitimately dead for the given arguments,
+				// and `assert false` states unreachability itself)
+				_, isPlainCall := instr.(*ssa.Call)
+				if fr.isRoot && g != False && isPlainCall {
+					cv := vc.oblige("cover", fmt.Sprintf("%s/cover/call/%s", vc.RootKey, hn), h.Tags, pc, True, pos, "the asserted call site is reachable (not a vacuous protocol obligation)")
+					cv.Cover = true
+					cv.SiteCover = true
+				}
 			}
 		}
 	}
@@ -187,6 +192,12 @@ func (fr *Frame) doCallWith(c *ssa.CallCommon, instr ssa.Instruction, fnVal Val,
 		if n, ok := c.Value.Type().(*types.Named); ok && n.Obj().Pkg() != nil && n.Obj().Pkg().Path() == "context" && n.Obj().Name() == "CancelFunc" {
 			// a context.CancelFunc only cancels its context: no effect on the program's heap
 			vc.UsedAssumed["context.CancelFunc has no heap effect"] = true
+			res = vc.freshResult("dyn", rt)
+			break
+		}
+		if isContextCancel(c.Value) {
+			// cancel function of a context.With* call: context-package state only
+			vc.UsedAssumed["context cancel functions have no effect on program state"] = true
 			res = vc.freshResult("dyn", rt)
 			break
 		}
@@ -265,6 +276,10 @@ func (fr *Frame) matchingHooks(name, op string) []*Clause {
 		if c.Op != "" && c.Op != op {
 			continue
 		}
+		if vc.hookMatched == nil {
+			vc.hookMatched = map[*Clause]bool{}
+		}
+		vc.hookMatched[c] = true
 		out = append(out, c)
 	}
 	return out
@@ -357,7 +372,11 @@ func (fr *Frame) staticCall(callee *ssa.Function, bindings []Val, c *ssa.CallCom
 				}
 			}
 		}
-		return fr.applyContract(fc, callee, args, nil, st, pc, pos, rt, name)
+		res, npc := fr.applyContract(fc, callee, args, nil, st, pc, pos, rt, name)
+		if e.fnInModule(callee) && !fc.Has("pure") && !fc.Has("modifies") {
+			fr.havocFuncArgs(c, st)
+		}
+		return res, npc
 	}
 	if e.fnInModule(callee) && callee.Blocks != nil {
 		if fr.canInline(callee) {
@@ -366,6 +385,7 @@ func (fr *Frame) staticCall(callee *ssa.Function, bindings []Val, c *ssa.CallCom
 		// mod-set havoc
 		vc.Havocked[key] = true
 		vc.havocClasses(st, e.ModSet(callee))
+		fr.havocFuncArgs(c, st)
 		res := vc.freshResult(callee.Name(), rt)
 		fr.assumeAliveResult(st, pc, res)
 		return res, pc
